@@ -31,7 +31,7 @@ partial def parseDoc (j : Json) : Option Doc :=
 def excName : Exc → String
   | .typeError => "TypeError" | .keyError => "KeyError" | .indexError => "IndexError"
   | .assertionError => "AssertionError" | .attributeError => "AttributeError"
-  | .notImplementedError => "NotImplementedError" | .coreError => "CoreError"
+  | .notImplementedError => "NotImplementedError" | .coreError => "CoreError" | .osError => "OSError"
   | .valueError => "ValueError" | .configurationError => "ConfigurationError" | .uiError => "UIError"
 
 def optStrField (j : Json) (k : String) : Option (Option String) :=
@@ -46,7 +46,8 @@ def handle (op : String) (j : Json) : Option Json :=
   | "c19.compile" => do
       let d ← parseDoc (← getObj? j "doc")
       let cli : Cli := { expName := ← optStrField j "exp", machine := ← optStrField j "machine",
-                         invOverride := ← getBool? j "inv_override", itOverride := ← getBool? j "it_override" }
+                         invOverride := ← getBool? j "inv_override", itOverride := ← getBool? j "it_override",
+                         unreadable := ((getArr? j "unreadable").getD #[]).toList.filterMap asStr? }
       let repaired ← getBool? j "repaired"
       let core := compileCore d cli
       let out := match compileWith repaired d cli with
